@@ -252,6 +252,12 @@ fn inputs(e: &Entry, tier: Tier) -> Vec<(String, Class)> {
     for s in mc_api::strings_upto(&SYMBOLS, tier.pick(4, 6)) {
         push(s, Class::Short, &mut out);
     }
+    // numeric spellings (room versions, VoIP versions): the same number written differently is a different string
+    for sp in e.spellings.iter().filter(|sp| !sp.is_empty() && sp.chars().all(|c| c.is_ascii_digit())) {
+        for m in [format!("0{sp}"), format!("00{sp}"), format!("+{sp}"), format!("{sp}.0"), format!(" {sp}"), format!("{sp} "), format!("{sp}e0")] {
+            push(m, Class::Edit, &mut out);
+        }
+    }
     // lengths around the only length limit a string enum has (room versions: 32 code points), in bytes and
     // in code points, and long values
     for n in [31usize, 32, 33, 255, 256] {
